@@ -155,6 +155,8 @@ type fixture struct {
 	stallSeen    bool           // the FetchBlob stall finding has been established on this fixture
 	deathSeen    bool           // the death of the current child process has been reported
 	leakedFDs    map[string]int // descriptors on cache files already reported for the current child
+	slack        int            // descriptor excess over the baseline explained by bounded pools (plateaus seen)
+	leakedConns  map[string]int // connection-table trouble already reported for the current child
 }
 
 func runFixture(r *lib.Run, p plan, n int) {
@@ -237,7 +239,21 @@ func (fx *fixture) startAux() error {
 	return err
 }
 
+// startChild starts the fixture's server; a failed start is retried (the
+// ports are picked before the child binds them, another job may grab one).
 func (fx *fixture) startChild() error {
+	var err error
+	for attempt := 0; attempt < 3; attempt++ {
+		if err = fx.startChildOnce(); err == nil {
+			return nil
+		}
+		fx.r.Count("fixture." + fx.p.name + ".start-retries")
+		time.Sleep(200 * time.Millisecond)
+	}
+	return err
+}
+
+func (fx *fixture) startChildOnce() error {
 	if fx.dir == "" {
 		fx.dir = lib.MkTemp("c14-" + fx.p.name)
 	}
@@ -273,6 +289,7 @@ func (fx *fixture) startChild() error {
 	fx.child = c
 	fx.deathSeen = false
 	fx.leakedFDs = map[string]int{}
+	fx.leakedConns = map[string]int{}
 	fx.logOff = 0
 	fx.srv = lib.AttachServer(c.HTTPAddr, c.GRPCAddr)
 	fx.srv.HTTPClient.Timeout = 0 // per-request contexts carry the deadline
@@ -428,6 +445,9 @@ func (fx *fixture) scanLog() (string, string) {
 }
 
 func (fx *fixture) exec(o *op) result {
+	if o.abortOp {
+		fx.cacheFDsBefore() // descriptors an earlier request left behind are not this request's
+	}
 	fx.journalWrite(o)
 	fx.lastOp = o
 	ctx, cancel := context.WithTimeout(context.Background(), opTimeout)
